@@ -2,7 +2,7 @@
 import math
 import os
 import random
-from . import solvercheck, oracles, gen, sweep
+from . import solvercheck, oracles, orders, gen, sweep
 from .p_common import TB
 from .gen import C, Y, T, add, sub, mul, neg, lin
 
@@ -133,8 +133,9 @@ def group_oracle(metas, parsed):
 def check():
     return solvercheck.run(
         "C14", "C14.v" if os.path.exists(os.path.join(solvercheck.common.COQ, "props", "C14.v")) else None,
-        [dict(builder=builder, n_quick=120, n_thorough=1200, group_oracle=group_oracle)],
-        [oracles.oracle_shapes], TB,
+        [dict(builder=builder, n_quick=120, n_thorough=1200, group_oracle=group_oracle),
+         dict(builder=orders.pade_builder, n_quick=1, n_thorough=1, nontrivial=lambda r: r.get("status") == "Success")],
+        [oracles.oracle_shapes, orders.oracle_pade], TB,
         "Radau and BDF on y'=-L(y-t^2)+2t and on linear systems (n=2..8) with fast rates L=1e2..1e10 (groups over L at fixed tolerance), "
         "Robertson and stiff Van der Pol, analytic and finite-difference Jacobian: Success, error <= 50 x steps x (atol+rtol|y|), accepted "
-        "steps bounded across L (max <= 4 min + 60), Robertson invariant to 1e-12/step; every run replayed bit-for-bit on the model")
+        "steps bounded across L (max <= 4 min + 60), Robertson invariant to 1e-12/step; single Radau steps on y'=lambda*y (z = h*lambda down to -1e8) against the (2,3) Pade approximant whose bound |R| <= 1 is the theorem; every run replayed bit-for-bit on the model")
